@@ -162,6 +162,12 @@ def run(ctx):
                         good = rg[0] == 'agg' and rg[1] == 'std::ops::Range' and is_count(dict(rg[3])['end'], kind)
                         if good:
                             why.append('loop variable of 0..num_%s' % kind)
+                    if not good and (is_param(a) or (a[0] == 'field' and is_param(a[1]))):
+                        # the argument of a closure handed to an adapter over 0..num_<kind>() (`(0..n).all(|f| self.frame(f)..)`)
+                        rg = q.closure_item_range(fx, b)
+                        if rg is not None and is_count(dict(rg[3])['end'], kind) and isinstance(q.const_val(dict(rg[3])['start']), int):
+                            good = True
+                            why.append('closure argument ranging over 0..num_%s' % kind)
                     if not good and kind == 'layers' and b.name == AF + 'frame_image':
                         good = a[0] == 'field' and a[2] == '0' and a[1][0] == 'next' and I.get('I1')[0]
                         why.append('slot index of a stored cel (I1)')
